@@ -1775,6 +1775,12 @@ class _String(Vector):
 		return Vector(tuple((s.rpartition(sep)[2] if s is not None else None) for s in self._underlying))
 
 
+def _at_midnight(x):
+	"""A date as the datetime it is compared as; a datetime (an element of a date vector that
+	was promoted to <datetime> by an assignment) is itself - its time of day counts."""
+	return x if isinstance(x, datetime) else datetime.combine(x, datetime.min.time())
+
+
 class _Date(Vector):
 	def __init__(self, initial=(), dtype=None, name=None, as_row=False, **kwargs):
 		# dtype already set by __new__
@@ -1789,7 +1795,7 @@ class _Date(Vector):
 			if other.schema() is not None and other.schema().kind == str:
 				return Vector(tuple(False if (x is None or y is None) else bool(op(x, date.fromisoformat(y))) for x, y in zip(self, other, strict=True)), dtype=DataType(bool))
 			if other.schema() is not None and other.schema().kind == datetime:
-				return Vector(tuple(False if (x is None or y is None) else bool(op(datetime.combine(x, datetime.min.time()), y)) for x, y in zip(self, other, strict=True)), dtype=DataType(bool))
+				return Vector(tuple(False if (x is None or y is None) else bool(op(_at_midnight(x), y)) for x, y in zip(self, other, strict=True)), dtype=DataType(bool))
 		elif isinstance(other, Iterable) and not isinstance(other, (str, bytes, bytearray)):
 			# Raise mismatched lengths
 			if len(self) != len(other):
@@ -1799,7 +1805,7 @@ class _Date(Vector):
 		elif isinstance(other, str):
 			return Vector(tuple(False if x is None else bool(op(x, date.fromisoformat(other))) for x in self), dtype=DataType(bool))
 		elif isinstance(other, datetime):
-			return Vector(tuple(False if x is None else bool(op(datetime.combine(x, datetime.min.time()), other)) for x in self), dtype=DataType(bool))
+			return Vector(tuple(False if x is None else bool(op(_at_midnight(x), other)) for x in self), dtype=DataType(bool))
 		# finally, 
 		return super()._elementwise_compare(other, op)
 
@@ -1855,12 +1861,12 @@ class _Date(Vector):
 			if len(self) != len(other):
 				raise ValueError(f"Length mismatch: {len(self)} != {len(other)}")
 			return Vector(tuple(
-				(date.fromordinal(s.toordinal() + y) if s is not None and y is not None else None)
+				(s + timedelta(days=y) if s is not None and y is not None else None)
 				for s, y in zip(self._underlying, other, strict=True)
 			))
 
 		if isinstance(other, int):
-			return Vector(tuple((date.fromordinal(s.toordinal() + other) if s is not None else None) for s in self._underlying))
+			return Vector(tuple((s + timedelta(days=other) if s is not None else None) for s in self._underlying))
 		return super().__add__(other)
 
 	def eomonth(self):
